@@ -1,4 +1,6 @@
 mod term;
+mod c13;
+mod c26;
 mod c14;
 mod c08;
 mod c15;
@@ -61,6 +63,8 @@ fn main() {
         "C15" => c15::run(seed, n, &mut out),
         "C08" => c08::run(seed, n, &mut out),
         "C14" => c14::run(seed, n, &mut out),
+        "C26" => c26::run(seed, n, &mut out),
+        "C13" => c13::run(seed, n, _extra.first().map(|s| s.as_str()).unwrap_or("quick"), &mut out),
         _ => { eprintln!("unknown property {}", prop); std::process::exit(2); }
     }
 }
